@@ -56,7 +56,13 @@ type NamedDecl struct {
 
 // IsEnum: enum.Detect succeeds (named integer / float / string type with at least one constant in its package)
 func (d *NamedDecl) IsEnum() bool {
-	return d.Under != nil && d.Under.K == "basic" && d.Under.Kind != bkBool && len(d.Consts) > 0
+	n := 0
+	for _, c := range d.Consts {
+		if d.Pkg == 1 || exportedName(c.Name) {
+			n++
+		}
+	}
+	return d.Under != nil && d.Under.K == "basic" && d.Under.Kind != bkBool && n > 0
 }
 
 type Program struct {
@@ -161,6 +167,9 @@ func (p *Program) coqEnv() string {
 		}
 		var cs []string
 		for _, c := range d.Consts {
+			if d.Pkg != 1 && !exportedName(c.Name) {
+				continue // packages that are only dependencies are loaded from export data: their unexported constants are invisible to enum.Detect
+			}
 			cs = append(cs, fmt.Sprintf("(%s, (%d)%%Z)", runes(c.Name), c.Val))
 		}
 		ds = append(ds, fmt.Sprintf("{| n_pkg := %d; n_pkgname := %s; n_name := %s; n_under := %s; n_enum := %s; n_methods := %s; n_consts := %s |}",
